@@ -45,5 +45,10 @@ CHECKS = {
   "note": "Trusted: timestamps from one monotonic clock per machine; lost cache entries are not treated as violations; the FASTQ/minimap2 path cannot run here, so the mapper caches are exercised at function level with stub files.",
   "technique": "concurrent stress executions with injected delays at hooked cache-file accesses + offline checker over the access log and outputs",
  },
+ "C05": {
+  "text": "The real AlignmentCollector.process() is driven in-process (tree's own args, both alignment storages, with and without annotation) over generated coverage profiles built to hit the region-splitting code (>=1024-read pile-ups inside one/two bins, >32 kb clusters with valleys beyond the 128-bin minimum, a valley in the last bin followed by short reads, bridging spliced reads), a hook on split_coverage_regions records how every cluster was cut, and the reported read ids are compared as a multiset with the ids expected from the BAM flags; CLI runs check corrected_reads.bed, read_assignments.tsv (no lost reads, no identical records) and the log's alignment statistics. Sampled profiles.",
+  "note": "Trusted: pysam for reading the input; expected set = mapped, non-supplementary records (all generated with MAPQ 60, so MAPQ-dependent filters do not apply); filtered categories are labelled by the generator.",
+  "technique": "in-process monitoring of the real collector with hooked region splitting + offline conservation check (input records = reported records) on CLI outputs",
+ },
 }
 NOT_APPLICABLE = {}
